@@ -139,11 +139,11 @@ theorem live_run_pages (P : Nat × Node × Bool → Prop) (sch : Levels) {s0 sN 
   induction run with
   | nil s tbls => intro pt h ho; exact ⟨pt, h, ho⟩
   | @same s s1 s2 tbls tbls2 stmts logs hs _ ih => intro pt h ho; exact ih pt (h.of_same hs) ho
-  | @ins s s1 s2 tbls tbls2 rest logs logs2 table cols vals t schema buf t' nf' ht hsch hcols henc hlen hins
+  | @ins s s1 s2 tbls tbls2 rest logs logs2 table cols vals t schema buf t' nf' ht hsch hcols hnames henc hlen hins
       hd' hl' hbig hrun _ ih =>
     intro pt h ho
     obtain ⟨s', ptF, logs', erun, hc', _, _, hcase⟩ := insert_refines' s pt sch tbls h table t ht cols vals
-      schema buf hsch hcols henc hlen t' nf' hins hd' hl' hbig
+      schema buf hsch hcols hnames henc hlen t' nf' hins hd' hl' hbig
     rw [hrun] at erun
     simp only [SRes.ok.injEq] at erun
     obtain ⟨_, rfl⟩ := erun
@@ -163,7 +163,8 @@ theorem live_run_pages (P : Nat × Node × Bool → Prop) (sch : Levels) {s0 sN 
   | @upd s s1 s2 tbls tbls2 rest logs logs2 table rowId cols src t schema c m buf ht hsch hc hk hdec henc hlen
       hrun _ ih =>
     intro pt h ho
-    obtain ⟨s', l, d, _, _, erun, hc', _⟩ := update_cat h table t ht schema hsch rowId cols src c hc hk
+    obtain ⟨s', l, d, _, _, erun, hc', _⟩ := update_cat h table t ht schema hsch rowId cols src
+      (update_ok_names h ht hsch hrun) c hc hk
       m buf hdec henc hlen
     rw [hrun] at erun
     simp only [SRes.ok.injEq] at erun
@@ -176,7 +177,8 @@ theorem live_run_pages (P : Nat × Node × Bool → Prop) (sch : Levels) {s0 sN 
       · exact .inr h.2)
   | @updAbsent s s1 s2 tbls tbls2 rest logs logs2 table rowId cols src t schema ht hsch habs hrun _ ih =>
     intro pt h ho
-    obtain ⟨s', erun, hs, hc'⟩ := update_cat_absent h table t ht schema hsch rowId cols src habs
+    obtain ⟨s', erun, hs, hc'⟩ := update_cat_absent h table t ht schema hsch rowId cols src
+      (update_ok_names h ht hsch hrun) habs
     rw [hrun] at erun
     simp only [SRes.ok.injEq] at erun
     obtain ⟨_, rfl⟩ := erun
